@@ -58,6 +58,7 @@ func (x *ChanCaster[C, V]) Send(value V) int {
 	// prevent receivers being added while sending + order values by send call
 	verifAt("caster.send.lock", x, 0)
 	x.mutex.Lock()
+	verifAt("caster.send.locked", x, 0)
 	defer x.mutex.Unlock()
 
 	// load our state, guard no receivers (early exit), and set tracker to the
@@ -147,6 +148,7 @@ func (x *ChanCaster[C, V]) Add(delta int) int {
 			// increasing num receivers not allowed concurrently with sending
 			verifAt("caster.add.rlock", x, delta)
 			x.mutex.RLock()
+			verifAt("caster.add.rlocked", x, 0)
 			defer x.mutex.RUnlock()
 
 			// add delta to both hi and lo
